@@ -182,6 +182,23 @@ Proof.
   do 5 eexists. split; [vm_compute; reflexivity|]. split; vm_compute; reflexivity.
 Qed.
 
+(* ... and the table read back from the written bytes exists (the inner hypothesis of cfi_convert_write_read_sound) *)
+Example cfi_readback_ex :
+  match conv_entry 4 (-8) ex_x ex_cie ex_fde with
+  | Ok (_, cl, fl) =>
+      match write_insns true (-8) cl, write_fde_insns true false 4 (-8) 0 fl with
+      | Ok cbs, Ok fbs =>
+          match decode_all false cbs, decode_all false fbs with
+          | Some dsc, Some dsf =>
+              snd (run_spec ex_p 4096 4196 (map It (map (rd_of_dinsn ex_plc) dsc)) (map It (map (rd_of_dinsn ex_plc) dsf))) = Done
+          | _, _ => False
+          end
+      | _, _ => False
+      end
+  | _ => False
+  end.
+Proof. vm_compute. reflexivity. Qed.
+
 Example cfi_normal_form_ex :
   forallb (dinsn_wf 4 (-8)) [DAdvance 1; DDefCfaOffset 16; DAdvance 3; DOffsetExtendedSf 6 2; DNop] = true /\
   0 + adv_sum 4 [DAdvance 1; DDefCfaOffset 16; DAdvance 3; DOffsetExtendedSf 6 2; DNop] < 2 ^ 32 /\
